@@ -33,7 +33,7 @@ TABLE = {
     ("Responder::handle_reorged_txs", "DBM::update_tracker_status"): ("pn4", ""),
     ("Responder::rebroadcast_stale_txs", "DBM::load_trackers_with_confirmation_status"): ("ok-const-status", "argument is a constant InMempoolSince(_): to_db_data is Some"),
     ("Responder::rebroadcast_stale_txs", "DBM::load_tracker"): ("pn4", ""),
-    ("Responder::rebroadcast_stale_txs", "DBM::update_tracker_status"): ("undecided", "IrrevocablyResolved from the node for a tracker the tower believes unconfirmed needs tower/node divergence (force update); acknowledged in the code"),
+    ("Responder::rebroadcast_stale_txs", "DBM::update_tracker_status"): ("pn4", ""),
     ("Responder as lightning::chain::Listen>::block_disconnected", "DBM::load_trackers_with_confirmation_status"): ("ok-const-status", "argument is a constant ConfirmedIn(_)"),
     ("TxIndex::<K, V>::remove_oldest_block", "VecDeque::<T, A>::pop_front"): ("undecided", "TxIndex invariant (C19)"),
     ("TxIndex::<K, V>::remove_oldest_block", "HashMap::<K, V, S, A>::remove"): ("undecided", "TxIndex invariant (C19)"),
@@ -56,7 +56,7 @@ TABLE = {
     ("net::http::send_appointment::{closure#0}", "AppointmentReceipt::signature"): ("ok-with-signature", "receipt built by with_signature in the same body"),
     ("net::http::send_appointment::{closure#0}", "cryptography::recover_pk"): ("pn1", ""),
     ("RetryManager::add_pending_appointments", "HashMap::<K, V, S, A>::get"): ("pn4", ""),
-    ("Retrier::start", "WTClient::get_tower_status"): ("undecided", "racing `abandontower` between the manager's contains_key check and start(); window of a few instructions, not demonstrated"),
+    ("Retrier::start", "WTClient::get_tower_status"): ("pn4", ""),
     ("Retrier::run::{closure#0}", "HashMap::<K, V, S, A>::get"): ("pn4", ""),
     ("Retrier::run::{closure#0}", "DBM::load_appointment"): ("undecided", "pending row implies appointment row (FK); concurrent delete by another tower's retrier not demonstrated"),
     ("WTClient::add_update_tower", "DBM::load_tower_record"): ("ok", "tower in memory implies tower row (PL7 mirror)"),
